@@ -127,7 +127,9 @@ def string_check(v, name, ignore_na=True, pat=None, tag=""):
     if name in ("str_contains", "str_matches"):
         P["pat"] = pat or STR_PATTERNS[0]
     if name == "str_length":
-        P["minl"], P["maxl"] = v.choice("minl" + tag, [None, 1, 2]), v.choice("maxl" + tag, [None, 2, 3])
+        # bounds are solver variables (0 included: `not bound` and `bound is None` differ exactly there); None-ness is a choice
+        P["minl"] = v.int("minl" + tag, 0, 4) if v.choice("minl_set" + tag, [True, False]) else None
+        P["maxl"] = v.int("maxl" + tag, 0, 4) if v.choice("maxl_set" + tag, [True, False]) else None
     return CheckSpec(name, ignore_na, **P)
 
 
